@@ -162,6 +162,7 @@ func c04Directed() []Directed {
 		directedHist("options-star-after-clean", "C04", noneIC, false, hOps(H("/x", "GET", "PUT"), H("/y", "DELETE"), dOp{op: "clean"})),
 		directedHist("options-star-remove-absent-method", "C04", noneIC, false, hOps(H("/a", "GET"), Rm("/a", "POST"), H("/b", "POST"))),
 		directedHist("options-star-counter-two-routes", "C04", noneIC, false, hOps(H("/a", "GET"), H("/b", "GET"), Rm("/a", "GET"))),
+		directedHist("trace-ghost-after-removing-methods-by-name", "C04", noneIC, true, hOps(H("/posts", "GET", "POST"), H("/posts/{id}", "GET"), Rm("/posts", "GET"), Rm("/posts", "POST"))),
 		directedHist("allow-after-method-removed", "C04", noneIC, true, hOps(H("/a/{id}", "GET", "POST"), H("/a/{id}/x", "PUT"), Rm("/a/{id}", "GET"))),
 	}
 }
@@ -176,6 +177,7 @@ func c17Directed() []Directed {
 		directedHist("twin-ignore-flag", "C17", noneIC, false, hOps(H("/u/{id}/x", "GET"), H("/u/{-id}/x", "POST"))),
 		directedHist("non-twin-never-ambiguous", "C17", noneIC, false, hOps(H("/u/{id}/x", "GET"), H("/u/{name}/y", "GET"), H(`/u/{id:\d+}/x`, "GET"))),
 		directedHist("non-utf8-literal-after-regexp", "C17", noneIC, false, hOps(H("/a/x", "GET"), H("/a/{d:\\d+}\xe4", "GET"))),
+		directedHist("twin-of-route-emptied-by-method-removal", "C17", noneIC, false, hOps(H("/posts/{id}/a", "GET"), H("/posts/{id}/author", "GET"), Rm("/posts/{id}/a", "GET"), H("/posts/{uid}/a", "GET")), g("/posts/7/a")),
 		directedHist("regexp-suffix-paren", "C17", noneIC, false, hOps(H("/a/x", "GET"), H(`/a/{id:\d+}(`, "GET")), g("/a/x"), g("/a/7(")),
 	}
 }
